@@ -29,8 +29,13 @@ MODELLED = ["np.sum (pairwise) is not modelled: its value s is an input of the F
             "MT19937 is not modelled: the uniforms are read from the generator under the same seed",
             "theorems are at exact real arithmetic; IEEE rounding of (u0+i)/n and of the running sum is covered by regime F only empirically"]
 ASSUMPTIONS = ["weights are finite and non-negative (Reweighter output); NaN/inf weights are outside the statement",
-               "count law (floor/ceil, unbiasedness) is proved for sum(w) = 1 exactly and for the renormalised branch; inside the tolerance "
-               "band 0 < |sum(w)-1| <= 2^-26 the routine uses the weights as they are and the last index absorbs the surplus"]
+               "length / range / monotone are proved with no assumption on the weights or their sum (any scalar type); the floor/ceil law, the "
+               "closed form and unbiasedness are proved for sum(w) = 1 exactly and for the renormalised branch (|sum(w)-1| > 2^-26, law for w/sum(w)); "
+               "inside the tolerance band 0 < |sum(w)-1| <= 2^-26 the routine uses the weights un-normalised: the law is proved for every index below "
+               "the last when sum(w) <= 1, the last index absorbs the surplus, and C06_syst_floor_ceil_needs_exact_sum shows the literal floor/ceil "
+               "clause fails in the band (w=[2^-30,1], n=2, u0=0 -> [0,1] although n*w_1 = 2)",
+               "multinomial: the expected number of copies n*w_i/sum(w) is the Lebesgue measure of the cell times n (independence of the n draws "
+               "and uniformity of MT19937 output are assumed)"]
 
 SQRTEPS = 2.0 ** -26
 ONE_M = math.nextafter(1.0, 0.0)
